@@ -660,6 +660,16 @@ func (s *Server) Invoke(responseWriter http.ResponseWriter, invoke *interop.Invo
 
 	releaseErrChan := make(chan error)
 	releaseSuccessChan := make(chan struct{})
+
+	// A failed release and the function timeout can both ask for a reset of this invocation, from two
+	// goroutines: it is reset once, and whoever comes second waits until that reset is over. A second reset
+	// would tear down whatever the next invocation has started in the meantime.
+	var resetOnce sync.Once
+	resetInvocation := func(reason string) {
+		resetOnce.Do(func() {
+			s.Reset(reason, resetDefaultTimeoutMs)
+		})
+	}
 	go func() {
 		// This thread can block in one of two method calls Reserve() & AwaitRelease(),
 		// corresponding to Init and Invoke phase.
@@ -729,7 +739,7 @@ func (s *Server) Invoke(responseWriter http.ResponseWriter, invoke *interop.Invo
 			case ErrInitDoneFailed, ErrInvokeDoneFailed:
 				// Reset when either init or invoke failrues occur, i.e.
 				// init/error, invocation/error, Runtime.ExitError, Extension.ExitError
-				s.Reset(autoresetReasonReleaseFail, resetDefaultTimeoutMs)
+				resetInvocation(autoresetReasonReleaseFail)
 				releaseErrChan <- err
 			default:
 				releaseErrChan <- err
@@ -743,7 +753,7 @@ func (s *Server) Invoke(responseWriter http.ResponseWriter, invoke *interop.Invo
 	var err error
 	select {
 	case timeoutErr := <-timeoutChan:
-		s.Reset(autoresetReasonTimeout, resetDefaultTimeoutMs)
+		resetInvocation(autoresetReasonTimeout)
 		select {
 		case releaseErr := <-releaseErrChan: // when AwaitRelease() has errors
 			log.Debugf("Invoke() release error on Execute() timeout: %s", releaseErr)
